@@ -307,6 +307,12 @@ def bfs(T, first, depth):
     T.sample('parser-stub', {'tokens': [STUB_KINDS[k][0] for k in seq]})
 
 
+# lexical sub-grammars whose errors are raised at, or just before, the end of the input
+PIECE_HEADS = ['%TAG ', '%YAML ', '%', '!', '!!', '!<', '&', '*', '"\\', '"\\x', '"\\u', "'", '|', '>', '- !', 'k: &', '[*', '{!', '--- !', '%TAG !e! ']
+PIECE_TAILS = ['', '!', '!a', '!a!', '!a! ', '!a! t', 'a', 'abc', '1', '1.', '1.1', '1.1 ', '<', '<a', '<a>', '>', ' ', '\n', 'a b', '%', '%4', '%41', '%zz', '4', '41', '-', '+', '2', '0', '9', 'é', '\t', '#', ',', ']', ':', 'a:',
+               '\n---', '!a!b c', 'tag:x', 'e-1', 'e_1', '"', "''"]
+
+
 # long inputs delivered through streams: positions must not depend on how the reader re-bases its buffer
 LONG_SHAPES = [('map-lines', lambda n: ''.join('key%d: value %d\n' % (i, i) for i in range(n // 16))), ('seq-short', lambda n: '- a\n' * (n // 4)),
                ('long-comment', lambda n: 'a: 1\n# ' + 'c' * n + '\nb: 2\n- oops\n'), ('long-plain', lambda n: 'k: ' + 'word ' * (n // 5) + '\nj: [1, 2]\n'),
@@ -330,6 +336,7 @@ def plan(tier, seed):
     jobs += [('bom', i) for i in range(4)]
     jobs += [('bommid', n, a) for n in range(1, (5 if q else 6)) for a in range(8)]
     jobs += [('long', i) for i in range(len(LONG_SHAPES) * 3)]
+    jobs += [('pieces', k) for k in range(len(PIECE_HEADS))]
     return jobs
 
 
@@ -346,6 +353,14 @@ def run_job(job, T):
             s = '\ufeff' + s
             check_text(T, 'bom-strings', {'input': s}, s)
         T.sample('bom-strings', {'input': s})
+    elif kind == 'pieces':
+        h = PIECE_HEADS[job[1]]
+        s_ = None
+        for a in PIECE_TAILS:
+            for b in ('', '\n', ' x', '\n--- a\n'):
+                s_ = h + a + b
+                check_text(T, 'lexical-pieces', {'input': s_}, s_)
+        T.sample('lexical-pieces', {'input': s_})
     elif kind == 'long':
         name, mkt = LONG_SHAPES[job[1] // 3]
         base = (4096, 8192, 12288)[job[1] % 3]
